@@ -289,6 +289,11 @@ func buildWorld(g *rng.R) *world {
 		}
 		var h slog.Handler = zapslog.NewHandler(core, hopts...)
 		w.handlers = append(w.handlers, h, h.WithGroup("grp").WithAttrs([]slog.Attr{slog.Int("pre", 1)}))
+		// handlers with several pending groups: their group list has spare capacity, so sibling
+		// derivations that aliased it would write the same slot
+		w.handlers = append(w.handlers, h.WithGroup("a").WithGroup("b").WithGroup("c"), h.WithGroup("p").WithGroup("q").WithGroup("r").WithGroup("s").WithGroup("t"))
+		// loggers whose accumulated context slices have spare capacity (len 3, cap 4)
+		w.loggers = append(w.loggers, root.With(someFields(g, 2)...).With(zap.Int("third", 3)), root.With(zap.Int("a", 1)).With(zap.Int("b", 2)).With(zap.Int("c", 3)))
 	}
 	return w
 }
@@ -563,6 +568,15 @@ var ops = []opFn{
 			_ = h.Handle(context.Background(), rec)
 			return "slog.Handle", ""
 		case 5:
+			if wk.g.Bool() {
+				// sibling derivation from a shared handler that may carry pending groups
+				h3 := h.WithGroup("sib" + fmt.Sprint(wk.id))
+				rec := slog.NewRecord(time.Now(), slog.LevelInfo, m, 0)
+				rec.AddAttrs(slog.Int("i", wk.id))
+				_ = h3.Handle(context.Background(), rec)
+				_ = h3.WithAttrs([]slog.Attr{slog.Int("wa", 1)}).Handle(context.Background(), rec)
+				return "slog.WithGroup-sibling.Handle", ""
+			}
 			h2 := h.WithAttrs([]slog.Attr{slog.Int("x", 1)}).WithGroup("q")
 			_ = h2.Handle(context.Background(), slog.NewRecord(time.Now(), slog.LevelWarn, m, 0))
 			return "slog.WithAttrs.WithGroup.Handle", ""
